@@ -4,6 +4,7 @@ import OrbitModel.Proofs.GenEqLoadHeads
 import OrbitModel.Proofs.GenEqLoadComplete
 import OrbitModel.Proofs.StoreReach
 import OrbitModel.Proofs.CrashExample
+import OrbitModel.Proofs.CacheReach
 /-!
 # C05 — acknowledged writes and replicated entries survive restart and crashes
 
@@ -57,6 +58,16 @@ theorem replication_never_forgets_cached_heads (acl : Acl) (s : Store) (logs : L
     ∀ h ∈ s.remoteHeads.getD [], h ∈ (s.loadEnd acl logs).remoteHeads.getD [] ∨
       has (s.loadEnd acl logs).log.entries h = true :=
   loadEnd_keeps_cached acl s logs
+
+/-- … and so **everything the cache reached before a replication round it reaches after it**
+(`ReachU`: following `next` links among all entries ever written — what an unlimited `Load` rebuilds
+when the blocks are retrievable), for every store state: also one opened with a limit, which holds
+only part of what its cache points to -/
+theorem replication_never_shrinks_what_the_cache_reaches {acl : Acl} {U : List Entry} (hU : HashDet U)
+    (hM : ClockMono U) {s : Store} {logs : List (OMap × OMap)} (hG : Good U s.log)
+    (hB : BatchHonest U s.log.id logs) :
+    ∀ x, ReachU U s.cachedHeads x → ReachU U (s.loadEnd acl logs).cachedHeads x :=
+  loadEnd_reach_mono hU hM hG hB
 
 /-- on a store that holds everything its cache points to (every store of the crash theorem above)
 that rule writes exactly the heads of the merged log, as before -/
